@@ -270,6 +270,28 @@ def check_whole(res, facts):
             rule.undecided(key, "no element source found (%s)" % [show(x)[:60] for x in sources], f.loc)
 
 
+def check_lentype(res, facts):
+    """the writer emits `len() as u64` for every container; a reader that converts the prefix to a narrower integer
+    (e.g. through an un-annotated `try_into()` that falls back to i32) rejects containers the writer accepts"""
+    rule = res.rule("R-LENTYPE", "readers convert the u64 length prefix to an integer type that holds every usize", 3)
+    wide = ("usize", "u64", "u128")
+    bits = {"u8": 8, "i8": 8, "u16": 16, "i16": 16, "u32": 32, "i32": 32, "i64": 64, "isize": 64, "i128": 128}
+    for f in facts.fns():
+        if not (f.name in ("deserialize_with_mode", "deserialize_with_flags") or (f.kind == "Closure" and "deserialize_with_mode" in f.id)):
+            continue
+        if "::test" in f.id:
+            continue
+        for bb, t in f.calls():
+            ta = t["f"].get("targs") or []
+            if t["f"].get("name") in ("try_into", "try_from") and len(ta) >= 2 and "u64" in ta[:2]:
+                dst = ta[1] if ta[0] == "u64" else ta[0]
+                key = "%s|%s|%s" % (f.crate, f.id[-110:], t["f"]["name"])
+                if dst in wide:
+                    rule.ok(key, "u64 -> %s" % dst, f.loc)
+                else:
+                    rule.bad(key, "the length prefix is converted to %s (%s): a container with 2^%d or more elements is written by the serializer but rejected by this reader, so it does not round-trip" % (dst, "integer-literal fallback of an un-annotated try_into()" if dst == "i32" else "narrower than usize", bits.get(dst, 64) - (1 if dst.startswith("i") else 0)), "%s (line %s)" % (f.loc, t.get("ln")))
+
+
 def run(ctx, res):
     facts = ctx.facts(UNITS)
     res.analysed = facts.stats()
@@ -280,6 +302,7 @@ def run(ctx, res):
     check_errarms(res, facts)
     check_trio(res, facts)
     check_whole(res, facts)
+    check_lentype(res, facts)
     return {
         "level": "other",
         "explanation": "Dataflow rules over the MIR of every CanonicalSerialize/CanonicalDeserialize impl in the workspace, the curve crates and the derive-macro output compiled in /verif/witness/shapes: mode-flag propagation, stream-length taint to allocation sinks, presence of error arms for malformed input, and agreement of writer/reader/size visiting order. Does NOT decide value equality of a round trip nor exact byte counts.",
